@@ -31,6 +31,8 @@ struct Job {
     ctx: Ctx,
     /// the input is handed to the parser at this offset (0..7) inside its buffer: different alignment of the same text
     align: usize,
+    /// selector of the ParseSettings knobs found in the working tree (0 = defaults; part of the entry name: "sim@<sel>")
+    settings: u64,
     /// the job is run this many times in a row (only the last result is kept): cheap way to age a thread by 2^16 parses
     repeat: usize,
 }
@@ -50,7 +52,8 @@ fn parse_job(v: &Value) -> Job {
         variant: v["variant"].as_str().expect("job.variant").to_string(),
         rule: v["rule"].as_str().expect("job.rule").to_string(),
         input,
-        entry: Entry::from_name(v.get("entry").and_then(|e| e.as_str()).unwrap_or("noop")).expect("job.entry"),
+        entry: Entry::from_name(v.get("entry").and_then(|e| e.as_str()).unwrap_or("noop").split('@').next().unwrap_or("noop")).expect("job.entry"),
+        settings: v.get("entry").and_then(|e| e.as_str()).and_then(|e| e.split_once('@')).and_then(|(_, n)| n.parse().ok()).unwrap_or(0),
         ctx: Ctx { retval: g(0), a_count: g(1), calls: 0 },
         align: v.get("align").and_then(|a| a.as_u64()).unwrap_or(0) as usize % 8,
         repeat: v.get("repeat").and_then(|a| a.as_u64()).unwrap_or(1).max(1) as usize,
@@ -74,6 +77,7 @@ fn run_job_guarded(job: &Job, entry: Entry) -> JobResult {
 }
 
 fn run_job_in_buffer(job: &Job, entry: Entry, reuse: bool) -> JobResult {
+    simcorpus::set_settings_selector(job.settings);
     let mut fresh = String::new();
     let r = if reuse {
         ARENA.with(|a| {
@@ -379,6 +383,7 @@ fn main() {
     let args: Vec<String> = std::env::args().collect();
     match args.get(1).map(|s| s.as_str()) {
         Some("list") => cmd_list(),
+        Some("knobs") => println!("{}", serde_json::to_string(simcorpus::SETTINGS_KNOBS).unwrap()),
         Some("oracle") => cmd_oracle(),
         Some("run") => cmd_run(),
         Some("batch") if args.len() >= 6 => cmd_batch(&args[2], &args[3], &args[4], args[5].parse().unwrap_or(60)),
